@@ -77,6 +77,7 @@ class Fake:
         self.events = []  # ("begin"|"end", k)
         self.in_use = 0
         self.overlaps = []
+        self.received = []  # wrapper level: per invocation what the primitive was handed (tag, own shots/precision, parameter values) + keywords
 
     def f(self, pubs):
         fail = self.ctl.yield_op(("f_begin",))
@@ -98,6 +99,16 @@ class Fake:
 
     # qiskit BaseSamplerV2 / BaseEstimatorV2 surface used by the wrappers
     def run(self, pubs, **kw):
+        pubs = list(pubs)
+        rec = []
+        for p in pubs:
+            try:
+                own = getattr(p, "shots", None) if self.level == "sampler" else getattr(p, "precision", None)
+                vals = tuple(round(float(x), 9) for x in p.parameter_values.as_array().reshape(-1)) if getattr(p, "parameter_values", None) is not None else ()
+            except Exception as e:  # not a coerced pub
+                own, vals = ("?", repr(e)[:80]), ()
+            rec.append((tag_of(p), own, vals))
+        self.received.append(dict(pubs=rec, kw={k: v for k, v in kw.items() if k in ("shots", "precision")}))
         return self.f(pubs)
 
 
@@ -210,6 +221,7 @@ class Run:
         self.outs = [[] for _ in range(n)]  # runner-level outcomes per thread: ("ok", k, idx, resultobj) | ("exc", k, e) | ("other", name, e)
         self.wrapper_returns = [[] for _ in range(n)]
         self.wrapper = None
+        self.expected = {}  # wrapper level: tag -> (effective shots/precision, parameter values) as submitted
         self.runners = []
         self.sub_fail_steps = set()  # steps at which the primitive raised at submission (f-begin with choice 1)
         self.ctor_error = None
@@ -287,15 +299,24 @@ class Run:
             from qiskit import QuantumCircuit
             from qiskit.quantum_info import SparsePauliOp
 
+            from qiskit.circuit import Parameter
+
+            own = self.cfg.get("own") or {}
             for ci, tags in enumerate(calls):
                 pubs = []
+                key = (self.cfg.get("keys") or {}).get(f"{i}:{ci}")
                 for t in tags:
                     qc = QuantumCircuit(1, 1 if self.level == "sampler" else 0, metadata={"tag": t})
+                    qc.rx(Parameter("a"), 0)
+                    val = [round(0.01 * t, 9)]
+                    mine = own.get(str(t))
                     if self.level == "sampler":
                         qc.measure(0, 0)
-                        pubs.append(qc)
+                        pubs.append((qc, val) if mine is None else (qc, val, mine))
                     else:
-                        pubs.append((qc, SparsePauliOp("Z")))
+                        pubs.append((qc, SparsePauliOp("Z"), val) if mine is None else (qc, SparsePauliOp("Z"), val, mine))
+                    # what the wrapped primitive must see for this pub: its own shots/precision, else the call's keyword
+                    self.expected[t] = (mine if mine is not None else key, tuple(val))
                 key = (self.cfg.get("keys") or {}).get(f"{i}:{ci}")
                 try:
                     if key is None:
@@ -651,6 +672,23 @@ def oracle(run: Run, faults_injected=None):
             else:
                 prop = "C09" if failed else "C06"
                 v.append((prop, "unexpected-" + str(outc[1]), f"thread {i} call {j} raised {outc[1]}: {outc[2]!r}"))
+    # ---- wrapper level: the pubs the primitive receives are the submitted ones (tag, parameter values, effective
+    #      shots / precision = the pub's own value, else the keyword of the call that submitted it)
+    if run.level != "runner":
+        for k, rec in enumerate(fake.received):
+            kwv = rec["kw"].get("shots" if run.level == "sampler" else "precision")
+            for tag, ownv, vals in rec["pubs"]:
+                exp = run.expected.get(tag)
+                if exp is None:
+                    continue
+                eff = ownv if ownv is not None else kwv
+                if eff != exp[0] or vals != exp[1]:
+                    v.append(("C06", "pub-altered", f"invocation {k}: pub {tag} was submitted with {'shots' if run.level == 'sampler' else 'precision'}={exp[0]} and parameter values {list(exp[1])}, "
+                                                    f"the wrapped primitive received it with own value {ownv}, keyword {kwv} and parameter values {list(vals)}"))
+                    break
+            else:
+                continue
+            break
     # ---- wrapper level: what the caller finally holds
     if run.level != "runner":
         for i, th in enumerate(calls):
@@ -1185,6 +1223,7 @@ def run_property(ctx, pid):
             # callers with different shots / precision values (None vs numbers)
             vals = [None, 10, 20] if cfg["level"] == "sampler" else [None, 0.1, 0.25]
             cfg["keys"] = {f"{a}:{b}": rng.choice(vals) for a, th in enumerate(cfg["calls"]) for b in range(len(th))}
+            cfg["own"] = {str(t): rng.choice(vals[1:] + [30 if cfg["level"] == "sampler" else 0.5]) for th in cfg["calls"] for c in th for t in c if rng.random() < 0.3}
         pol = random_policy(rng, p_fail=pf) if i % 4 < 2 else contention_policy(rng, p_fail=pf)
         ex.account(execute(cfg, pol, faults=faults), "wrapper" + ("-keys" if i % 2 else ""))
     ex.flush()
